@@ -1259,7 +1259,7 @@ AddHeadMulti(const Queue<ItemType> & queue, uint32 startIndex, uint32 numNewItem
    if (WillUnsignedAddOverflow(numNewItems, GetNumItems())) return B_RESOURCE_LIMIT;
    MRETURN_ON_ERROR(EnsureSize(numNewItems+GetNumItems()));
 
-   for (int32 i=(int32)(startIndex+numNewItems-1); i>=(int32)startIndex; i--) (void) AddHead(queue[i]);  // guaranteed not to fail
+   for (uint32 i=numNewItems; i>0; i--) (void) AddHead(queue[startIndex+i-1]);  // guaranteed not to fail.  (counting down an unsigned count so that a startIndex with its high bit set can't start the loop)
    return B_NO_ERROR;
 }
 
